@@ -6,8 +6,8 @@ from .common import NPROC, finish
 def run(ctx):
     q = ctx.quick()
     b = shm.shmsim(ctx)
-    parts = shm.run_single(ctx, b, ["c18cap"], NPROC, 1800)
-    cap = {"evaluations": 0, "stuck_cases": 0, "capped_calls": 0, "new_client_cases": 0}
+    parts = shm.run_single(ctx, b, ["c18cap", "--seed", str(ctx.seed)] + ([] if q else ["--allgens", "1"]), NPROC, 3600)
+    cap = {"evaluations": 0, "stuck_cases": 0, "capped_calls": 0, "new_client_cases": 0, "start_generation_cases": 0}
     mx = 0
     viol, samples = [], []
     lost = 0
@@ -33,7 +33,7 @@ def run(ctx):
         "evaluations": cap["evaluations"] + cov["scenarios"],
         "distinct_nontrivial": cap["stuck_cases"] + cov["distinct_schedules"],
         "rule": "c18cap: (a) an adversary completing 1 or 2 whole real updates each time the reader has copied the last word (drives the real retry loop to its cap) and one that gives up after 1000 retries; "
-                "(b) all 144 pairs (reader at its j-th shared access, writer dead for ever at the k-th point of an update); (c) writer dead at each of its 12 points from start generations 6, 65534 and 1 (already odd), then the very first call of a client that attaches afterwards; oracle: shared accesses per snapshot() <= 5e7, no torn record, an answer once the writer is idle. "
+                "(a2) adversaries mixing in-flight and completed updates at the re-check in fixed patterns; (a3) one update per retry from 160 start generations (quick: wrap neighbours + random; thorough: all 32767 even values); (b) all 144 pairs (reader at its j-th shared access, writer dead for ever at the k-th point of an update); (c) writer dead at each of its 12 points from start generations 6, 65534 and 1 (already odd), then the very first call of a client that attaches afterwards; oracle: shared accesses per snapshot() <= 5e7, no torn record, an answer once the writer is idle. "
                 "sched: seeded scenarios with writers that die for ever; oracle also: a call entered at an odd generation makes <= 4 accesses and returns its cache. distinct = stuck pairs + distinct interleaving traces",
         "samples": samples[:6] + ssamples[:1],
         "max_accesses_per_call": max(mx, cov["max_accesses_per_call"]),
